@@ -93,10 +93,11 @@ def run(r):
         "the consumer experiment skips a pair when either run hits the 400 ms execution limit",
     ]
     r.assumptions += ["sortedness is stated with the row order of C15 (value_cmp, proved a total preorder there)",
-                      "C05_wf_preserved covers reverse, first, last, fix, deshape, sort, sort-down and couple of equal shape and type; the mark rules of "
-                      "negate, range, classify, transpose, where, floor, ceiling, round, not, absolute value, sign, add, subtract, multiply, divide, minimum, maximum "
-                      "and select are transcribed (current code: fixed = true / cur_ver) and tied on every run, with truthfulness theorems under explicit side "
-                      "conditions (monotone / antitone rows, in-bounds non-negative indices); every other primitive, all modifiers, inverses, fills and maps are "
+                      "C05_wf_preserved covers reverse, first, last, fix, deshape, sort, sort-down, couple of equal shape and type, and take / drop with one integer "
+                      "amount and no fill (data, storage type and marks recomputed in Coq); the mark rules of "
+                      "negate, range, classify, transpose, where, floor, ceiling, round, not, absolute value, sign, add, subtract, multiply, divide, minimum, maximum, "
+                      "select, keep (scalar natural count, list of natural counts) and rotate are transcribed (current code: fixed = true / cur_ver) and tied on every run, with truthfulness theorems under explicit side "
+                      "conditions (monotone / antitone rows, in-bounds non-negative indices, rows selected at non-decreasing positions); every other primitive, all modifiers, inverses, fills and maps are "
                       "covered by the release-mode monitor only",
                       "wildcard / map-sentinel NaNs are outside the model (wildcard-free data)"]
     if not r.harness(["c05"]):
@@ -104,7 +105,7 @@ def run(r):
     r.proofs()
 
     # ---- tie (C): concrete marks and storage type of the modelled primitives
-    HEAD = ("From Coq Require Import List NArith Bool. Import ListNotations.\n"
+    HEAD = ("From Coq Require Import List ZArith NArith Bool. Import ListNotations.\n"
             "From UV Require Import Base.Value Model.Order Model.Flags.\nOpen Scope N_scope.\n")
     n_tie = 1200 if quick else 20000
     rc, out, err = run_bin("c05", ["tie", n_tie], seed=r.seed, timeout=1500)
